@@ -398,6 +398,14 @@ func (g *fgen) elemKeyName(et types.Type) string {
 	if _, ok := isStructVal(et); ok {
 		return typeName(et)
 	}
+	// slices of different basic element types can never alias: one heap per kind
+	if b, ok := et.Underlying().(*types.Basic); ok {
+		switch b.Kind() {
+		case types.Uint8, types.Int8, types.Uint16, types.Int16, types.Uint32, types.Int32, types.Uint64, types.Int64,
+			types.Int, types.Uint, types.Uintptr, types.Float32, types.Float64, types.Bool, types.String:
+			return "b_" + types.Typ[b.Kind()].Name()
+		}
+	}
 	return mangle(g.sortOf(et))
 }
 
@@ -485,6 +493,33 @@ func (e *cenv) unary(x *cUnary) val {
 		}
 		l := g.ptrLoc(v.t, p.Elem())
 		return val{g.load(e.st, l), p.Elem(), g.sortOf(p.Elem())}
+	}
+	if x.op == "&" {
+		// &obj.f: the interior pointer, as the same term the code uses
+		sel, ok := x.x.(*cSel)
+		if !ok {
+			e.fail("& is supported on field selectors only")
+		}
+		cur := e.tr(sel.x)
+		var pk *types.Package
+		if n, isN := derefNamed(cur.typ); isN && n.Obj().Pkg() != nil {
+			pk = n.Obj().Pkg()
+		}
+		obj, path, _ := types.LookupFieldOrMethod(cur.typ, true, pk, sel.name)
+		if _, isVar := obj.(*types.Var); !isVar || len(path) == 0 {
+			e.fail("no field %s", sel.name)
+		}
+		for _, i := range path[:len(path)-1] {
+			cur = e.fieldOf(cur, i)
+		}
+		s, T, isPS := derefStruct(cur.typ)
+		if !isPS {
+			e.fail("& of a field of a non-pointer")
+		}
+		last := path[len(path)-1]
+		ft := s.Field(last).Type()
+		l := &loc{root: rootField, rootT: typeName(T), path: []int{last}, base: cur.t, typ: ft}
+		return val{g.interiorPtr(l), types.NewPointer(ft), "Int"}
 	}
 	e.fail("unsupported unary %s", x.op)
 	return val{}
@@ -728,6 +763,9 @@ func (e *cenv) convert(v val, t types.Type) val {
 	}
 	if v.sort == srt {
 		return val{v.t, t, srt}
+	}
+	if srt == "String" && v.sort == "Slice" {
+		return val{g.bytesToString(e.st, v), t, srt}
 	}
 	if _, ok := t.Underlying().(*types.Interface); ok {
 		return val{g.makeIface(e.st, "true", v), t, srt}
@@ -1026,6 +1064,50 @@ func (g *fgen) pureApp(fc *funcContract, args []val) val {
 			ss = append(ss, g.sortOf(pt))
 		}
 		g.emit(fmt.Sprintf("(declare-fun %s (%s) %s)", name, strings.Join(ss, " "), g.sortOf(rt)))
+		// the contract of a pure function holds for every application of its symbol
+		// (it is what the function's own verification establishes); recursion-safe:
+		// when verifying the function itself the axiom is not emitted
+		isSelf := g.fc == fc
+		if !isSelf && len(fc.ensures) > 0 && len(fc.params) > 0 && g.entry != nil {
+			vars := map[string]val{}
+			var bs, an []string
+			okTypes := true
+			for _, p := range fc.params {
+				pt, err := g.resolveType(p.typ, pkg)
+				if err != nil {
+					okTypes = false
+					break
+				}
+				bn := "a!" + p.name
+				bs = append(bs, fmt.Sprintf("(%s %s)", bn, g.sortOf(pt)))
+				an = append(an, bn)
+				vars[p.name] = val{bn, pt, g.sortOf(pt)}
+			}
+			if okTypes {
+				app := "(" + name + " " + strings.Join(an, " ") + ")"
+				vars[fc.results[0].name] = val{app, rt, g.sortOf(rt)}
+				nq := new(int)
+				*nq = 900000
+				env := &cenv{g: g, st: g.entry, old: g.entry, vars: vars, pkg: pkg, nq: nq}
+				func() {
+					defer func() {
+						if r := recover(); r != nil {
+							if _, isT := r.(transErr); !isT {
+								panic(r)
+							}
+						}
+					}()
+					var pre, post []string
+					for _, c := range fc.requires {
+						pre = append(pre, env.bool(c.e))
+					}
+					for _, c := range fc.ensures {
+						post = append(post, env.bool(c.e))
+					}
+					g.emit(fmt.Sprintf("(assert (forall (%s) (! %s :pattern (%s))))", strings.Join(bs, " "), implies(and(pre...), and(post...)), app))
+				}()
+			}
+		}
 	}
 	var as []string
 	for _, a := range args {
